@@ -93,8 +93,17 @@ fn gen(r: &mut Rng, idx: u64) -> Scenario {
     let n0 = r.range(0, 5) as usize;
     let keys0: Vec<i64> = shuffled(r, vec![10, 20, 30, 40, 50, 60])[..n0].to_vec();
     let mut next_id: i64 = 1;
-    let k = r.range(1, 5) as usize;
-    let pos = r.below(k as u64) as usize;
+    // fault-position enumeration: within a family the case index enumerates fault kind x (row count k, position) with
+    // k = 1..5 and the failing row at EVERY position 0..k-1 (15 pairs); a quick run goes through the whole product
+    const KP: [(usize, usize); 15] =
+        [(1, 0), (2, 0), (2, 1), (3, 0), (3, 1), (3, 2), (4, 0), (4, 1), (4, 2), (4, 3), (5, 0), (5, 1), (5, 2), (5, 3), (5, 4)];
+    let n_faults: u64 = match fam {
+        0..=3 => 14,
+        4 | 5 => 7,
+        6 | 7 => 14,
+        _ => 8,
+    };
+    let (k, pos) = KP[(((idx / 10) / n_faults) % 15) as usize];
     match fam {
         // ---------------------------------------------------------------- INSERT ... VALUES
         0 | 1 | 2 | 3 => {
@@ -123,6 +132,7 @@ fn gen(r: &mut Rng, idx: u64) -> Scenario {
                 Fault::ColCount, Fault::RowTrig(Timing::Before, r.below(4), r.chance(1, 3)), Fault::RowTrig(Timing::After, r.below(4), r.chance(1, 3)),
                 Fault::StmtTrig(Timing::Before, r.below(4)), Fault::StmtTrig(Timing::After, r.below(4)), Fault::WhenErr(Timing::After),
             ];
+            assert!(faults.len() as u64 == n_faults, "harness: fault table size");
             let mut fault = faults[((idx / 10) % faults.len() as u64) as usize].clone();
             let mut cols_ok = true;
             match &fault {
@@ -213,6 +223,7 @@ fn gen(r: &mut Rng, idx: u64) -> Scenario {
                 }
             }
             let faults = [Fault::None, Fault::DupTable, Fault::Check, Fault::FkMiss, Fault::NotNull, Fault::RowTrig(Timing::After, r.below(4), r.chance(1, 3)), Fault::RowTrig(Timing::Before, r.below(4), false)];
+            assert!(faults.len() as u64 == n_faults, "harness: fault table size");
             let mut fault = faults[((idx / 10) % faults.len() as u64) as usize].clone();
             let mut trigs: Vec<Trig> = Vec::new();
             let mut has_audit = false;
@@ -285,6 +296,7 @@ fn gen(r: &mut Rng, idx: u64) -> Scenario {
                 Fault::RowTrig(Timing::Before, r.below(4), r.chance(1, 3)), Fault::RowTrig(Timing::After, r.below(4), r.chance(1, 3)),
                 Fault::StmtTrig(Timing::Before, r.below(4)), Fault::StmtTrig(Timing::After, r.below(4)), Fault::NoActionHit, Fault::WhenErr(Timing::Before),
             ];
+            assert!(faults.len() as u64 == n_faults, "harness: fault table size");
             let mut fault = faults[((idx / 10) % faults.len() as u64) as usize].clone();
             if fault == Fault::NoActionHit {
                 a2 = (Act::Cascade, if r.chance(1, 2) { Act::Cascade } else { Act::SetNull });
@@ -340,7 +352,9 @@ fn gen(r: &mut Rng, idx: u64) -> Scenario {
                 }
                 Fault::ApplyType => asg = vec![(1, case_of(Expr::Lit(Cell::Str), Expr::Add(Box::new(Expr::Col(1)), 7)))],
                 Fault::MissingCol => asg = vec![(2, lit(1)), (77, lit(1))],
-                Fault::WhereErr => wq = Some(Cond::And(Box::new(w.clone().unwrap()), Box::new(eqc(Expr::Col(77), 1)))),
+                Fault::WhereErr => {
+                    wq = if r.chance(1, 2) { Some(Cond::And(Box::new(w.clone().unwrap()), Box::new(eqc(Expr::Col(77), 1)))) } else { Some(Cond::Val(Expr::Lit(Cell::Str))) }
+                }
                 Fault::RowTrig(tm, fk, with_audit) => {
                     let id = next_id;
                     next_id += 1;
@@ -386,6 +400,7 @@ fn gen(r: &mut Rng, idx: u64) -> Scenario {
                 Fault::None, Fault::RowTrig(Timing::Before, r.below(4), r.chance(1, 3)), Fault::RowTrig(Timing::After, r.below(4), r.chance(1, 3)),
                 Fault::StmtTrig(Timing::Before, r.below(4)), Fault::StmtTrig(Timing::After, r.below(4)), Fault::NoActionHit, Fault::WhenErr(Timing::After), Fault::WhereErr,
             ];
+            assert!(faults.len() as u64 == n_faults, "harness: fault table size");
             let fault = faults[((idx / 10) % faults.len() as u64) as usize].clone();
             if fault == Fault::NoActionHit {
                 a2 = (if r.chance(1, 2) { Act::Cascade } else { Act::SetNull }, Act::NoAction);
@@ -445,7 +460,9 @@ fn gen(r: &mut Rng, idx: u64) -> Scenario {
                     }
                     setup.push(Stmt::Insert { t: 3, cols_ok: true, rows: vec![vec![lit(300), lit(key_p)]] });
                 }
-                Fault::WhereErr => w = Some(Cond::And(Box::new(Cond::Cmp(Op::Ge, Expr::Col(0), lit(lo))), Box::new(eqc(Expr::Col(77), 1)))),
+                Fault::WhereErr => {
+                    w = if r.chance(1, 2) { Some(Cond::And(Box::new(Cond::Cmp(Op::Ge, Expr::Col(0), lit(lo))), Box::new(eqc(Expr::Col(77), 1)))) } else { Some(Cond::Val(Expr::Lit(Cell::Str))) }
+                }
                 _ => {
                     for (i, key) in keys.iter().enumerate() {
                         if r.chance(1, 3) && (a2.0 != Act::NoAction) {
@@ -498,8 +515,8 @@ fn main() {
     let mut sum = Summary::default();
     sum.nontrivial_rule = "a case is (tables, set-up rows, triggers, one DML statement) with the implementation's result and every table before/after; distinct = distinct printed case; non-trivial = the statement addresses at least one row and either carries a planted fault or affects two or more rows".into();
     let mut log = CaseLog::new(&args);
-    let n_cases: u64 = if args.thorough { 24000 } else { 2800 };
-    let per_shard = 175;
+    let n_cases: u64 = if args.thorough { 24000 } else { 2400 };
+    let per_shard = 150;
     let mut shard_text: Vec<String> = Vec::new();
     let mut shard_k = 0usize;
     let mut known_model_ids: Vec<u64> = Vec::new();
@@ -531,6 +548,7 @@ fn main() {
         sum.count(&format!("kind:{}", sc.kind));
         sum.count(&format!("fault:{}", format!("{:?}", sc.fault).split('(').next().unwrap()));
         sum.count(&format!("rows:{}", sc.k));
+        sum.count(&format!("position:{}of{}", sc.pos, sc.k));
         sum.count(if code >= 0 { "result:ok" } else if code == -1 { "result:err" } else { "result:panic" });
         if sc.fault != Fault::None || sc.k >= 2 {
             sum.nontrivial(&format!("{}", cj()));
@@ -638,7 +656,7 @@ fn expected_subject_rows(sc: &Scenario, ran: &Ran) -> Option<(Vec<Row>, usize)> 
                 let en = Env { cur: Some(row), old: None, new: None };
                 let sel = match w {
                     None => true,
-                    Some(c) => eval_cond(&en, c)? == Some(true),
+                    Some(c) => where_selects(&en, c)?,
                 };
                 if sel {
                     let mut new = row.clone();
@@ -660,7 +678,7 @@ fn expected_subject_rows(sc: &Scenario, ran: &Ran) -> Option<(Vec<Row>, usize)> 
                 let en = Env { cur: Some(row), old: None, new: None };
                 let sel = match w {
                     None => true,
-                    Some(c) => matches!(eval_cond(&en, c), Some(Some(true))),
+                    Some(c) => where_selects(&en, c) == Some(true),
                 };
                 if sel {
                     n += 1;
